@@ -1,6 +1,7 @@
 """C07 - a linear model's adjoint is the transpose of its forward map.
 
-Spec: specs/ModelGeom.tla (parts "C07", "TP", "SEQ", "SEQ2").  TLC checks Adjoint / Columns / Transpose on the intended design for
+Spec: specs/ModelGeom.tla (parts "C07", "TP", "SEQ", "SEQ2") and specs/ModelGeomEdit.tla (part "SEQE": in-place edits of the matrix,
+replayed by cuqiverif/c07_edit.py).  TLC checks Adjoint / Columns / Transpose on the intended design for
 every (model kind, domain geometry, range geometry) of the bounded instance, the named deviations must violate them, and
 the exact expected numbers are replayed into real cuqi.model.LinearModel objects and the shipped linear test problems.
 """
@@ -19,7 +20,16 @@ META = {
              "CURRENT geometries; T's own matrix must reproduce T's forward; 3 more deviations must violate. "
              "Part SEQ2: the same machine over TWO objects - the action Copy derives a second object from the model (model(distribution) "
              "and copy.copy(model)), every later action goes to either object in any order; after every action BOTH real objects must "
-             "show the specification's values for THEIR OWN current geometries (deviation CopySharesAssembledMatrix must violate)."),
+             "show the specification's values for THEIR OWN current geometries (deviation CopySharesAssembledMatrix must violate). "
+             "Part SEQE (ModelGeomEdit.tla, EXTENDS ModelGeom): the action EditMatrixInPlace - the user updates the matrix of a matrix-backed "
+             "model in place through the own reference (M *= 2, M[i,j] = v, M[:,0] += 1, np.multiply(M, 2, out=M), M.data *= 2, M.data[k] = v) "
+             "or through what get_matrix() returned - interleaved with get_matrix / T (held transposed model) / geometry assignments on one "
+             "object and on a model and an object derived from it (model(distribution), copy.copy, copy.deepcopy), for dense C / F ordered "
+             "ndarrays and scipy CSR / CSC / COO.  No assumption whether a model aliases or copies the array (storage cells with contents, four "
+             "free booleans): the invariants say that forward, adjoint, get_matrix() and the transposed model built now show THE SAME content "
+             "of the matrix at the same time; deviations AdjointKeepsTransposedCopy, AssembledMatrixOutlivesEdit, DeepCopyKeepsCallablesOfOriginal "
+             "must violate.  Replay: which content an object shows is read off its forward map (observation), every other read-out of "
+             "every live object must then be the exact value of TLC's table for that same content, after every action."),
     "note": ("Bounded sizes (function dimensions 4 and 6, images 2x2/2x3, test problems dim 4-8). KLExpansion is realised numerically "
              "(maps read off the original geometry object). Refusals (fun2par not implemented) are observations. Legacy "
              "Deconvolution1D has no documented operator: only the identities are checked."),
@@ -1071,6 +1081,8 @@ def run(ctx):
         check_lin_case(ctx, c)
     nseq = run_seq(ctx, lin)
     nseq += run_seq2(ctx, lin)
+    from cuqiverif.c07_edit import run_edit
+    nseq += run_edit(ctx, lin)
     for c in conv:
         (check_conv1 if c["kind"] == "conv1" else check_conv2)(ctx, c)
     named = named_problems(tier)
@@ -1085,7 +1097,8 @@ def run(ctx):
                 "Fwd x, Adj y, matrix; one per (1-D/2-D, PSF, boundary condition) with the integer convolution matrix; named-PSF / legacy / "
                 "Abel1D configurations enumerated by the harness; non-trivial = distinct configuration x check kind "
                 "(forward, adjoint, get_matrix, T, tp); one per behaviour of the SEQ state machine (sequence of operations on one object) "
-                "and of the SEQ2 state machine (the same operations on a model and its shallow copy)")
+                "and of the SEQ2 state machine (the same operations on a model and its shallow copy); one per behaviour of the SEQE state "
+                "machine of ModelGeomEdit.tla (in-place edits of the matrix interleaved with them)")
     ctx.exhaustive = True
     ctx.traces = len(lin) + len(conv) + len(named) + nseq
     ctx.assumptions += ["function dimensions 4 and 6; test problems of dimension 4-8",
@@ -1109,6 +1122,9 @@ def replay(ctx, case):
         return check_seq_case(ctx, case)
     if kind == "seq2":
         return check_seq2_case(ctx, case)
+    if kind == "seqe":
+        from cuqiverif.c07_edit import check_behaviour
+        return check_behaviour(ctx, case)
     if kind == "conv1":
         return check_conv1(ctx, case)
     if kind == "conv2":
